@@ -416,6 +416,10 @@ def units(tier):
             full = tier == "thorough" or WINDOWS[w] in ((0, 200), (1, 4)) or name in ("base", "late-obstacles")
             for half in ((0, 1) if full else (0,)):
                 u.append({"k": "flags1", "scenario": name, "window": w, "full": full, "half": half})
+    # pairs of switches where the second lives in a sub-group of the first one's group (one switch enables a feature, the other configures it)
+    for name in ("base", "file:test_reading_all.xml"):
+        for sh in range(8):
+            u.append({"k": "flags2-nested", "scenario": name, "shard": sh, "of": 8})
     if tier == "thorough":
         for name in ("base", "late-obstacles", "file:test_reading_all.xml"):
             for sh in range(32):
@@ -472,6 +476,18 @@ def run_unit(unit, tier):
                 total_case(unit["scenario"], [(["planning_problem_set"], "draw_ids", v if v is None else [100][:len(v)])], w, res, d, "pp_draw_ids")
             res.states += 1
             res.sample({"k": "flags1", "scenario": unit["scenario"], "window": list(w)}, 1)
+        elif k == "flags2-nested":
+            flags = bool_flags()
+            idx = 0
+            for (p1, f1) in flags:
+                for (p2, f2) in flags:
+                    if len(p2) > len(p1) and list(p2[:len(p1)]) == list(p1):
+                        idx += 1
+                        if idx % unit["of"] != unit["shard"]:
+                            continue
+                        c1 = getattr(get_group(set_params([]), p1), f1); c2 = getattr(get_group(set_params([]), p2), f2)
+                        total_case(unit["scenario"], [(p1, f1, not c1), (p2, f2, not c2)], (1, 4), res, d, "flag2-nested")
+            res.states += 1
         elif k == "flags2":
             flags = bool_flags()
             idx = 0
